@@ -34,6 +34,9 @@ type RenderContext struct {
 	blockChain   map[string][][]Node // overriding definitions of each block, most-derived first
 	currentChain [][]Node            // all definitions of the block being rendered, most-derived first
 	blockDepth   int                 // which definition of currentChain is being rendered
+
+	// For imported macros: the macros of their defining template, so that they can call their siblings
+	macroScopes map[*MacroNode]map[string]Node
 }
 
 // contextMapPool is a pool for the maps used in RenderContext
@@ -116,6 +119,7 @@ func NewRenderContext(env *Environment, context map[string]interface{}, engine *
 	ctx.extending = false
 	ctx.currentBlock = nil
 	ctx.blockChain = nil
+	ctx.macroScopes = nil
 	ctx.currentChain = nil
 	ctx.blockDepth = 0
 	ctx.parent = nil
@@ -140,6 +144,7 @@ func (ctx *RenderContext) Release() {
 	ctx.engine = nil
 	ctx.currentBlock = nil
 	ctx.blockChain = nil
+	ctx.macroScopes = nil
 	ctx.currentChain = nil
 
 	// Save the maps so we can return them to their respective pools
@@ -200,6 +205,33 @@ func copyBlockChain(chain map[string][][]Node) map[string][][]Node {
 		out[name] = append([][]Node(nil), defs...)
 	}
 	return out
+}
+
+// rememberMacroScope records, for macros imported from another template, the macros defined
+// next to them, so that an imported macro can call its siblings
+func (ctx *RenderContext) rememberMacroScope(scope map[string]Node) {
+	siblings := make(map[string]Node, len(scope))
+	for name, macro := range scope {
+		siblings[name] = macro
+	}
+	if ctx.macroScopes == nil {
+		ctx.macroScopes = make(map[*MacroNode]map[string]Node)
+	}
+	for _, macro := range scope {
+		if macroNode, ok := macro.(*MacroNode); ok {
+			ctx.macroScopes[macroNode] = siblings
+		}
+	}
+}
+
+// macroScope finds the sibling macros of an imported macro, looking through parent contexts
+func (ctx *RenderContext) macroScope(macro *MacroNode) map[string]Node {
+	for c := ctx; c != nil; c = c.parent {
+		if scope, ok := c.macroScopes[macro]; ok {
+			return scope
+		}
+	}
+	return nil
 }
 
 // Error types
@@ -352,6 +384,7 @@ func (ctx *RenderContext) Clone() *RenderContext {
 	newCtx.blockChain = copyBlockChain(ctx.blockChain)
 	newCtx.currentChain = nil
 	newCtx.blockDepth = 0
+	newCtx.macroScopes = nil
 	newCtx.parent = ctx
 	newCtx.inParentCall = false
 
